@@ -112,6 +112,29 @@ ExportOnlyPanics ==
        /\ ~(last.op = "open" /\ last.form = "alloc" /\ FALSE)) => last.kind = "panic"
 
 (***************************************************************************)
+(* Incremental forms for trace validation: along ONE behaviour it is       *)
+(* enough to examine, in every state, what the last call added (earlier    *)
+(* entries were examined in earlier states); keeps long traces linear.     *)
+(***************************************************************************)
+LastSealed == sent[last.c][Len(sent[last.c])]
+LastRcvd   == rcvd[last.c][Len(rcvd[last.c])]
+SealedUnder(m, r, e) ==
+    /\ m.key = ctx[r].key
+    /\ m.nonce = ComputeNonce(AeadOf(ctx[r]), ctx[r].bn, e.seq)
+    /\ m.pt = e.pt /\ m.aad = e.aad
+TraceStateProps ==
+    /\ (last.op = "seal" /\ last.kind = "ok") =>
+          /\ LastSealed.nonce = ComputeNonce(AeadOf(ctx[last.c]), ctx[last.c].bn, LastSealed.seq)
+          /\ BLen(LastSealed.ct) = BLen(LastSealed.pt) /\ BLen(LastSealed.tag) = 16
+          /\ \A i \in 1..(Len(sent[last.c]) - 1) :
+                 sent[last.c][i].ep = LastSealed.ep => sent[last.c][i].nonce # LastSealed.nonce
+    /\ (last.op = "open" /\ last.kind = "ok") =>
+          /\ \/ \E s \in DOMAIN sent : \E i \in 1..Len(sent[s]) : SealedUnder(sent[s][i], last.c, LastRcvd)
+             \/ \E i \in 1..Len(shots) : SealedUnder(shots[i], last.c, LastRcvd)
+          /\ \A i \in 1..(Len(rcvd[last.c]) - 1) :
+                 rcvd[last.c][i].ep = LastRcvd.ep => ByteLt(rcvd[last.c][i].seq, LastRcvd.seq)
+
+(***************************************************************************)
 (* The per-call properties above talk about `last`.  Models hide `last`    *)
 (* from the state fingerprint (VIEW CoreView), so they are asserted on     *)
 (* every generated TRANSITION from an ACTION_CONSTRAINT instead of being   *)
